@@ -51,8 +51,10 @@ def make_tube(ndim, g, T1=None):
     tube.set_pressure_bc(receiver.PressureBC(times, np.array([0.0, g.get("p", 0.0)])))
     if T1 is None:
         T1 = np.full(g["nr"], g.get("dT", 0.0))
-    T = np.zeros((2,) + tube.dim[:ndim])
-    T[1] = np.asarray(T1, dtype=float).reshape((g["nr"],) + (1,) * (ndim - 1))
+    # a uniform preheat at the first time: thermal strains are relative to the temperature at t0, so
+    # this must change nothing
+    T = np.zeros((2,) + tube.dim[:ndim]) + g.get("Tbase", 0.0)
+    T[1] = T[1] + np.asarray(T1, dtype=float).reshape((g["nr"],) + (1,) * (ndim - 1))
     tube.add_results("temperature", T)
     emodel = elasticity.IsotropicLinearElasticModel(g.get("E", 150000.0), "youngs", g.get("nu", 0.3), "poissons")
     mat = models.SmallStrainElasticity(emodel, alpha=g.get("al", 0.0))
@@ -336,10 +338,19 @@ def solve_case(ndim, g, T1=None):
     """one real elastic step through spring.TubeSpring; returns polar stresses at the quadrature points"""
     from srlife import spring
     structural, tube, solver, mat = make_tube(ndim, g, T1)
-    sp = spring.TubeSpring(tube, solver, mat)
-    f, k = sp.force_and_stiffness(1, g["d"])
-    sp.update_state(1)
-    st = sp.state_np1
+    if g.get("direct"):
+        # the per-step API driven as the upstream tests do: fresh state without a time index
+        solver.setup_tube(tube)
+        st0 = solver.init_state(tube, mat)
+        solver.dump_state(tube, 0, st0)
+        st = solver.solve(tube, 1, st0, g["d"])
+        solver.dump_state(tube, 1, st)
+        f, k = st.force, st.stiffness
+    else:
+        sp = spring.TubeSpring(tube, solver, mat)
+        f, k = sp.force_and_stiffness(1, g["d"])
+        sp.update_state(1)
+        st = sp.state_np1
     X = st.basis.global_coordinates().value
     dx = np.array(st.basis.dx)
     q = tube.quadrature_results
@@ -410,6 +421,10 @@ def gen_case(rng, sizes):
              nu=rng.choice([0.2, 0.25, 0.3, 0.35]), al=rng.choice([5e-6, 1e-5, 1.75e-5]),
              p=rng.choice([-20.0, 1.0, 7.5, 30.0, 100.0]), dT=rng.choice([-100.0, 0.0, 50.0, 250.0]))
     g["d"] = g["h"] * rng.choice([-1e-3, 2.5e-4, 2e-3])
+    # uniform preheat at t0 (must not matter) and how the step is driven: through spring.TubeSpring
+    # or through the per-step API from a fresh state created without a time index
+    g["Tbase"] = rng.choice([0.0, 300.0, 650.0])
+    g["direct"] = rng.random() < 0.5
     g.update(sizes)
     return g
 
@@ -734,6 +749,11 @@ def run(ctx):
     jobs = []
     for c in range(ncases):
         g = gen_case(rng, dict(nr=6, nt=24, nz=2))
+        # deterministic coverage of the driving mode and the preheat in every run
+        g["direct"] = (c % 2 == 0)
+        g["Tbase"] = [300.0, 650.0, 0.0][c % 3]
+        if g["al"] * g["Tbase"] == 0.0 and c % 3 != 2:
+            g["al"] = 1e-5
         for ndim in (1, 2):
             jobs.append(("refine", ndim, c, g, RefineJob, (ndim, g, batch)))
         gc = dict(g)
